@@ -214,6 +214,16 @@ func c02Progs() map[string]*Prog {
 		{Name: "callee", Cmds: []C{{Extra: "{{.X}}"}, {Extra: "{{.X}}"}}},
 		sib,
 	}}
+	m["matrix-three-keys"] = &Prog{Tasks: []*T{
+		{Name: "root", Deps: []Ref{D("main"), D("sib")}},
+		{Name: "main", Cmds: []C{
+			{For: &vlab.For{Matrix: [][]string{{"K", "1", "2"}, {"L", "x", "y", "z"}, {"M", "p", "q"}}}},
+			{For: &vlab.For{Matrix: [][]string{{"K", "1", "2"}, {"L", "x", "y"}, {"M", "p", "q"}}}, Call: &Ref{Task: "callee"}},
+			P(),
+		}},
+		{Name: "callee", Cmds: []C{P()}},
+		sib,
+	}}
 	m["loop-var"] = &Prog{Tasks: []*T{
 		{Name: "root", Deps: []Ref{D("main"), D("sib")}},
 		{Name: "main", Vars: [][2]string{{"LIST", "u v w"}}, Cmds: []C{
@@ -293,7 +303,7 @@ func c02Units(tier string) []*Unit {
 			us = append(us, &Unit{Name: sc.Name, Sc: sc, Bound: bound, Prune: true, Check: both(c02Check(pg), c01Check(pg)), Weight: len(pg.Tasks)})
 		}
 	}
-	us = append(us, c02ExternalProcessUnit())
+	us = append(us, c02ExternalProcessUnit(), c02LoopScopeUnit())
 	return us
 }
 
@@ -381,5 +391,34 @@ func c02ExternalProcessUnit() *Unit {
 		res.Extra["samples"] = samples
 		res.Stats = vlab.Stats{Scenario: name, Execs: n, States: n, Transitions: n, Outcomes: 1, Exhaustive: true}
 		return res
+	}}
+}
+
+// The iterator of a for loop is visible inside that loop only: afterwards the name means what
+// it meant before (a task variable of the same name, or nothing), in later loops too.
+func c02LoopScopeUnit() *Unit {
+	pr := func(idx, extra string) string {
+		return "printf '%s\\n' 'P|main|" + idx + "|@|" + extra + "'"
+	}
+	tf := "version: '3'\ntasks:\n  main:\n    vars: {ENVN: prod, ITEM: outer, STAGES: 'dev test'}\n    cmds:\n" +
+		"      - for: {var: STAGES, as: ENVN}\n        cmd: " + pr("0#{{.ENVN}}", "in-loop ENVN={{.ENVN}}") + "\n" +
+		"      - for: [a, b]\n        cmd: " + pr("1#{{.ITEM}}", "ITEM={{.ITEM}} ENVN={{.ENVN}}") + "\n" +
+		"      - " + pr("2", "ITEM={{.ITEM}} ENVN={{.ENVN}}") + "\n" +
+		"      - for: [c]\n        task: callee\n        vars: {X: '{{.ENVN}}-{{.ITEM}}'}\n" +
+		"  callee:\n    cmds:\n      - printf '%s\\n' 'P|callee|0|@>main.c3|X={{.X}}'\n"
+	sc := &vlab.Scenario{Name: "loop-iterator-scope/cinf", Files: map[string]string{"Taskfile.yml": tf}, Calls: []vlab.CallSpec{{Task: "main"}}}
+	want := []string{"in-loop ENVN=dev", "in-loop ENVN=test", "ITEM=a ENVN=prod", "ITEM=b ENVN=prod", "ITEM=outer ENVN=prod", "X=prod-c"}
+	return &Unit{Name: sc.Name, Sc: sc, Bound: 0, Prune: false, Weight: 1, Check: func(x *vlab.Exec) []vlab.Violation {
+		out := generic("C02", x)
+		var got []string
+		for _, e := range vlab.ParseTrace(x.Trace) {
+			if e.K == 'S' && e.Task != "" {
+				got = append(got, e.Extra)
+			}
+		}
+		if x.Code != 0 || strings.Join(got, "|") != strings.Join(want, "|") {
+			out = append(out, vlab.V("C02", "loop_variable_scope", "", fmt.Sprintf("entries ran with %q (status %d %s), expected %q", got, x.Code, firstN(x.ErrStr, 100), want)))
+		}
+		return out
 	}}
 }
